@@ -1398,6 +1398,19 @@ impl ASN1Value {
                 }
                 Ok(())
             }
+            // an enumeral of an anonymous ENUMERATED type, which is known by an internal name
+            (ASN1Type::Enumerated(e), ASN1Value::ElsewhereDeclaredValue { identifier, .. })
+                if type_name.is_some_and(|name| {
+                    name.starts_with(INTERNAL_NESTED_TYPE_NAME_PREFIX)
+                        || name.starts_with(INTERNAL_ITEM_TYPE_NAME_PREFIX)
+                }) && e.members.iter().any(|m| &m.name == identifier) =>
+            {
+                *self = ASN1Value::EnumeratedValue {
+                    enumerated: type_name.cloned().unwrap_or_default(),
+                    enumerable: identifier.clone(),
+                };
+                Ok(())
+            }
             (ASN1Type::Enumerated(_), ASN1Value::ElsewhereDeclaredValue { identifier, .. })
                 if tlds
                     .iter()
@@ -1676,8 +1689,9 @@ impl ASN1Value {
         Ok(ASN1Value::LinkedArrayLikeValue(
             val.iter()
                 .map(|v| match (&element_type_name, &*v.1) {
-                    // CHOICE values carry the name of their type
-                    (Some(_), ASN1Value::Choice { .. }) | (None, _) => v.1.clone(),
+                    // CHOICE values and enumerals carry the name of their type
+                    (Some(_), ASN1Value::Choice { .. } | ASN1Value::EnumeratedValue { .. })
+                    | (None, _) => v.1.clone(),
                     (Some(element_type), _) => Box::new(ASN1Value::LinkedNestedValue {
                         supertypes: vec![element_type.clone()],
                         value: v.1.clone(),
